@@ -241,8 +241,10 @@ theorem latest_ttl_rule_incomplete :
 
 /-! ### decorators that write a live entry again (`early`, `soft`, `hit`, `dynamic`) -/
 
-/-- **Completeness for tags attached by any decorator, on every write path.**  `DecorCall` is a call of a function
-decorated with `tags=` - by the simple `@cache`, by `early` (miss; recalculation ahead of the deadline, in the foreground or
+/-- **Completeness for tags attached by any decorator, on every write path and under every wrapping option.**  `DecorCall`
+is a call of a function decorated with `tags=` - under the ordinary wrapping or with `upper=True`, `lock=True`,
+`protected=False`, `time_condition=` (`Run`: how long the body takes and which results the condition accepts; none of
+them changes the key and the tags of what is stored) - by the simple `@cache`, by `early` (miss; recalculation ahead of the deadline, in the foreground or
 in a background task), by `soft` (miss; recomputation after the soft deadline) or by `hit` / `dynamic` (miss; update at
 `update_after` hits; recomputation beyond `cache_hits`) - given as the wrapper commands it issues.  After any history
 `ops`, if the body of such a call ran (so the decorator wrote the key - for the first time or **again, over the live entry,
@@ -300,10 +302,10 @@ trivial: an `early` function (ttl 800, early_ttl 80, tag 0) is called at 0 and a
 the entry (deadline 800) still alive -: the second call recalculates (`bodyRan`), the entry's deadline moves to 1200 and so
 does the tag set's; at 900 - past the original deadline - the key is readable and `delete_tags 0` removes it -/
 example :
-    let ops := (earlyCall cfgDec init 0 1 1 (some 800) 80 [0]).1 ++ [.adv 400]
-    let p := earlyCall cfgDec (exec cfgDec init ops) 0 1 2 (some 800) 80 [0]
+    let ops := (earlyCall cfgDec init 0 1 1 (some 800) 80 [0] .plain).1 ++ [.adv 400]
+    let p := earlyCall cfgDec (exec cfgDec init ops) 0 1 2 (some 800) 80 [0] .plain
     bodyRan p.2 = true ∧ readable (exec cfgDec init ops) 0 = some (.nums [80, 1]) ∧
-    p.1 = [.get 0, .set 1 (.tok 1) (some 80) .nx [], decorWrite 0 (.nums [480, 2]) (some 800) [0], .delete 1] ∧
+    p.1 = [.get 0, .set 1 (.tok 1) (some 80) .nx [], .adv 0, decorWrite 0 (.nums [480, 2]) (some 800) [0], .delete 1] ∧
     readable (exec cfgDec init (ops ++ p.1 ++ [.adv 500])) 0 = some (.nums [480, 2]) ∧
     ((exec cfgDec init (ops ++ p.1 ++ [.adv 500])).ts 0).map (fun e => (members e, e.dl)) = some ([0], some 1200) ∧
     readable (exec cfgDec init (ops ++ p.1 ++ [.adv 500, .deleteTags [0]])) 0 = none := by decide
@@ -312,13 +314,43 @@ example :
 counter 3) reach their re-writes too -/
 example :
     let cfg : Cfg := { tagOf := fun k => if k = 0 ∨ k = 2 ∨ k = 3 then [0] else [], batch := 100, keys := [0, 1, 2, 3] }
-    let s1 := exec cfg init ((softCall cfg init 0 1 (some 800) 80 [0]).1 ++ [.adv 400])
-    let h1 := exec cfg init (hitCall cfg init 2 3 1 (some 800) [0] 3 2).1
-    let h2 := exec cfg h1 (hitCall cfg h1 2 3 2 (some 800) [0] 3 2).1
-    (softCall cfg s1 0 2 (some 800) 80 [0]).2 = .vals [some (.tok 2)] ∧ readable s1 0 = some (.nums [80, 1]) ∧
-    (hitCall cfg h1 2 3 2 (some 800) [0] 3 2).2 = .val (some (.tok 1)) ∧
-    hitCall cfg h2 2 3 3 (some 800) [0] 3 2 =
-      ([.get 2, .incr 3 1 (some 800) [0], .delete 3, decorWrite 2 (.tok 3) (some 800) [0]], .vals [some (.tok 3)]) := by decide
+    let s1 := exec cfg init ((softCall cfg init 0 1 (some 800) 80 [0] .plain).1 ++ [.adv 400])
+    let h1 := exec cfg init (hitCall cfg init 2 3 1 (some 800) [0] 3 2 .plain).1
+    let h2 := exec cfg h1 (hitCall cfg h1 2 3 2 (some 800) [0] 3 2 .plain).1
+    (softCall cfg s1 0 2 (some 800) 80 [0] .plain).2 = .vals [some (.tok 2)] ∧ readable s1 0 = some (.nums [80, 1]) ∧
+    (hitCall cfg h1 2 3 2 (some 800) [0] 3 2 .plain).2 = .val (some (.tok 1)) ∧
+    hitCall cfg h2 2 3 3 (some 800) [0] 3 2 .plain =
+      ([.get 2, .incr 3 1 (some 800) [0], .adv 0, .delete 3, decorWrite 2 (.tok 3) (some 800) [0]], .vals [some (.tok 3)]) := by decide
+
+/-- the wrapping options: under `time_condition=` (limit 8 ticks) a body that takes 8 ticks is not stored, one that takes 9
+is - under its tags, with the deadline counted from the end of the body -; under `upper=True` an `early` call that finds its
+entry due for recalculation runs the body but stores nothing (finding the entry is recorded in `detect.calls`), the entry
+and its tags stay as they were and `delete_tags` still removes it -/
+example :
+    let fast : Run := ⟨8, false, false⟩
+    let slow : Run := ⟨9, true, true⟩
+    let upper : Run := ⟨0, true, false⟩
+    simpleCall cfgDec init 0 (.tok 1) (some 800) [0] fast = ([.get 0, .adv 8], .vals [none]) ∧
+    readable (exec cfgDec init (simpleCall cfgDec init 0 (.tok 1) (some 800) [0] fast).1) 0 = none ∧
+    simpleCall cfgDec init 0 (.tok 1) (some 800) [0] slow = ([.get 0, .adv 9, decorWrite 0 (.tok 1) (some 800) [0]], .vals [some (.tok 1)]) ∧
+    (exec cfgDec init (simpleCall cfgDec init 0 (.tok 1) (some 800) [0] slow).1).kv 0 = some ⟨.tok 1, some 809⟩ ∧
+    (let s1 := exec cfgDec init ((earlyCall cfgDec init 0 1 1 (some 800) 80 [0] upper).1 ++ [.adv 400])
+     earlyCall cfgDec s1 0 1 2 (some 800) 80 [0] upper =
+       ([.get 0, .set 1 (.tok 1) (some 80) .nx [], .adv 0, .delete 1], .vals [none]) ∧
+     readable (exec cfgDec s1 ((earlyCall cfgDec s1 0 1 2 (some 800) 80 [0] upper).1)) 0 = some (.nums [80, 1]) ∧
+     readable (exec cfgDec s1 ((earlyCall cfgDec s1 0 1 2 (some 800) 80 [0] upper).1 ++ [.deleteTags [0]])) 0 = none) := by decide
+
+/-- **A wrapping path that drops the tags breaks the property.**  The per-call decorator of `upper=True` built from
+`decor_kwargs` without `tags` runs the program of a call with no tags (`simpleCall .. [] ..`) for a call whose decorator
+has tag 0: the entry is stored, filed under nothing, and `delete_tags 0` leaves it readable; built with the tags, the same
+call's entry is removed. -/
+theorem tagless_wrapping_path_incomplete :
+    let upper : Run := ⟨0, true, false⟩
+    (simpleCall cfgDec init 0 (.tok 1) (some 800) [0] upper).2 = .vals [some (.tok 1)] ∧
+    (simpleCall cfgDec init 0 (.tok 1) (some 800) [] upper).2 = .vals [some (.tok 1)] ∧
+    readable (exec cfgDec init ((simpleCall cfgDec init 0 (.tok 1) (some 800) [0] upper).1 ++ [.deleteTags [0]])) 0 = none ∧
+    readable (exec cfgDec init ((simpleCall cfgDec init 0 (.tok 1) (some 800) [] upper).1 ++ [.deleteTags [0]])) 0 =
+      some (.tok 1) := by decide
 
 /-- **Re-writing without the tags breaks the property.**  The variant of `early` whose recalculation stores the fresh
 result with `tags=()` "because the key is already a member of its tag sets" (`earlyCallWith false`): the first call at 0
@@ -326,10 +358,10 @@ files the entry (deadline 800) under tag 0, whose set gets deadline 800; the rec
 1200 but not the set's; at 900 the set is gone, the key - whose latest write is the decorator's, for a call tagged 0 - is
 alive, and `delete_tags 0` misses it.  With the tags (`earlyCall`) the same history ends with the key removed. -/
 theorem untagged_refresh_incomplete :
-    let ops := (earlyCall cfgDec init 0 1 1 (some 800) 80 [0]).1 ++ [.adv 400]
+    let ops := (earlyCall cfgDec init 0 1 1 (some 800) 80 [0] .plain).1 ++ [.adv 400]
     let s1 := exec cfgDec init ops
-    let good := earlyCall cfgDec s1 0 1 2 (some 800) 80 [0]
-    let bad := earlyCallWith false cfgDec s1 0 1 2 (some 800) 80 [0]
+    let good := earlyCall cfgDec s1 0 1 2 (some 800) 80 [0] .plain
+    let bad := earlyCallWith false cfgDec s1 0 1 2 (some 800) 80 [0] .plain
     bodyRan good.2 = true ∧ bodyRan bad.2 = true ∧
     readable (exec cfgDec s1 (good.1 ++ [.adv 500, .deleteTags [0]])) 0 = none ∧
     readable (exec cfgDec s1 (bad.1 ++ [.adv 500])) 0 = some (.nums [480, 2]) ∧
